@@ -515,6 +515,25 @@ def isotope_selection(ctx, rep, clause):
                    f'`{norm_stmt(node)}` does not take the first element of a list sorted by abundance (descending) as '
                    f'its siblings do: this table calls another isotope "monoisotopic" than the others (differs for Se, '
                    f'Li, B, Fe, ...)', f.loc(node), clause)
+        # a selection written in place: <list>[0].atomic_symbol
+        seen_inline = set()
+        for node in walk_own(f.node):
+            if isinstance(node, ast.Attribute) and node.attr in ('atomic_symbol', 'atomic_number') and \
+                    isinstance(node.value, ast.Subscript) and isinstance(node.value.value, ast.Name) and \
+                    isinstance(node.value.slice, ast.Constant) and node.value.slice.value == 0 and \
+                    isinstance(node.ctx, ast.Load) and not any(
+                        isinstance(l_, ast.Lambda) and any(node is y for y in ast.walk(l_)) for l_ in walk_own(f.node)):
+                src = node.value.value.id
+                if src in seen_inline:
+                    continue
+                seen_inline.add(src)
+                n += 1
+                good = sorted_vars.get(src, (False, None))[0] and sorted_vars[src][1].order < node.order
+                ob(rep, 'SIB-isotope-order', f.fq, f'the isotope that keys the table (`{src}[0]`) is the most abundant one',
+                   good, 'first element after sorting by isotopic_composition, descending',
+                   f'`{norm_stmt(node)}` takes the first element of `{src}`, which was not sorted by abundance '
+                   f'(descending) before: this table calls another isotope "monoisotopic" than the others', f.loc(node),
+                   clause)
         for r in sorted(reps):
             if any(k == 'each' and isinstance(pl[0], ast.Name) and pl[0].id in {p_.name for p_ in f.params}
                    for k, pl in c.bindings.get(r, [])):
@@ -525,7 +544,7 @@ def isotope_selection(ctx, rep, clause):
                 ob(rep, 'SIB-isotope-order', f.fq, 'the isotope that keys the table is selected from a sorted list', False,
                    '', f'`{r}` keys the table but is not assigned from `<list sorted by abundance>[0]` (it is a loop '
                    f'variable or an unpacked value)', f.loc(), clause)
-    rep.floor('SIB-isotope-order', 'representative-isotope selections in element_setup.py', n, 8)
+    rep.floor('SIB-isotope-order', 'representative-isotope selections in element_setup.py', n, 9)
 
 
 def run(ctx, rep):
